@@ -8,7 +8,6 @@ under every compiler.
 """
 import json
 import os
-import sys
 
 import vtlib
 from checks.component import run_component
@@ -32,14 +31,16 @@ VARIANTS_THOROUGH = VARIANTS + [
     ("gcc-asan-assert", dict(cxx="g++", std="c++14", opt="-O1", san=True, flags=PT + ["-DVT_ASSERT", "-DVT_REDUCED"])),
 ]
 
-RULE = ("Cases are enumerated, not sampled: 32-bit seeds 0..2^n (thorough: all 2^32) plus 2^k, 2^k+-1, ~0, the seeds "
-        "-k*golden whose k-th sequencer output is zero, through the sequencer, the seeding routine and the first 4 outputs / "
-        "float calls of xoshiro128+ and xoshiro128**; a long window (64 / 256 outputs, three interleaved jump()) for 2^16..2^22 "
-        "consecutive + special seeds of the 32-bit and 64-bit variants; uniform(uint32_t) on all 2^32 arguments; "
-        "uniform(uint64_t) on 2^24 (thorough: all 2^32) high words x low word {0, ~0}. evaluations = individual comparisons with the "
+RULE = ("Cases are enumerated, not sampled. (1) 32-bit variants, short form: seeds 0..2^22 (thorough: all 2^32) plus 2^k, 2^k+-1, ~0 and "
+        "the seeds -k*golden whose k-th sequencer output is zero: 4 raw + 4 zero-rejecting sequencer outputs, the seeded state and the "
+        "first 4 outputs of xoshiro128+ and xoshiro128** against the reference, 4 float calls in [0,1). (2) long form, 32-bit seeds "
+        "0..2^16 (thorough 2^20) and 64-bit seeds 0..2^18 (thorough 2^22), each plus the same special seeds: first 64 (thorough 256) "
+        "outputs with jump() after 1/4, 1/2 and 3/4 of them, state compared after every jump. (3) uniform(uint32_t) on all 2^32 "
+        "arguments; uniform(uint64_t) on 2^24 spread (thorough: all 2^32) high words + 2^k, 2^k+-1, ~0, each with low word 0 and ~0. "
+        "The sanitizer builds run the same scheme on ranges 4..64 times smaller. evaluations = individual comparisons with the "
         "reference / range checks, summed over all processes. distinct_nontrivial is measured inside one process with std::set and "
         "counts the boundary cases only: (a) distinct (width, seed) whose seeding loop really had to reject a zero sequencer output "
-        "(reference says so AND the library's sequencer state advanced by 4+r steps) plus (b) distinct mantissa fields m of "
+        "(the reference says so AND the library's sequencer state advanced by 4+r steps) plus (b) distinct mantissa fields m of "
         "uniform() arguments at a binade edge (m = 0, 2^k or 2^k-1, i.e. results 0, 2^-j, 1-2^-j and the largest value below 1). "
         "It is the same set in every build variant and is not summed over variants.")
 
